@@ -288,6 +288,79 @@ def make_spies():
     return SpyES, SpyRanker, SpyOpt
 
 
+REAL_ES = ["cma_es", "sep_cma_es", "lm_ma_es", "openai_es"]
+
+
+def make_recorder(name):
+    """A user subclass of a REAL evolution strategy that records what passes through the documented hooks (the
+    coefficient rows `ask` hands out, the arguments of `tell`, `reset`, the outcome of `check_stop`) and otherwise
+    behaves like its base class; `check_stop` additionally honours the scripted stop flag."""
+    from ribs.emitters import opt as O
+    base = {"cma_es": O.CMAEvolutionStrategy, "sep_cma_es": O.SeparableCMAEvolutionStrategy,
+            "lm_ma_es": O.LMMAEvolutionStrategy, "openai_es": O.OpenAIEvolutionStrategy}[name]
+
+    class Recorder(base):
+
+        def __init__(self, *a, script=None, **kw):
+            self.script = script
+            self.log = []
+            self.last = None
+            super().__init__(*a, **kw)
+
+        def reset(self, x0):
+            self.log.append(("reset", np.array(x0, dtype=np.float64).copy()))
+            return super().reset(x0)
+
+        def check_stop(self, ranking_values):
+            real = bool(super().check_stop(ranking_values))
+            self.log.append(("check_stop", np.array(ranking_values).copy(), real))
+            return real or bool(self.script["stop"])
+
+        def ask(self, batch_size=None):
+            out = super().ask() if batch_size is None else super().ask(batch_size)
+            self.last = np.array(out, dtype=np.float64, copy=True)
+            return out
+
+        def tell(self, ranking_indices, ranking_values, num_parents):
+            self.log.append(("tell", np.array(ranking_indices).copy(), int(num_parents)))
+            return super().tell(ranking_indices, ranking_values, num_parents)
+
+    Recorder.__name__ = Recorder.__qualname__ = "Recording" + base.__name__
+    return Recorder
+
+
+def probe_outputs(e, have_grad, n, md, batch):
+    """What an emitter emits from here on -- run on a throw-away deep copy: the solution point, (after supplying one
+    fixed Jacobian when it holds none) a batch of ask(), and the solution point after telling that batch back."""
+    outs = []
+    try:
+        outs.append(np.array(e.ask_dqd(), dtype=np.float64))
+        if not have_grad:
+            jac = (np.arange((md + 1) * n, dtype=np.float64).reshape(1, md + 1, n) - 2.0) / 4
+            e.tell_dqd(outs[0].copy(), np.zeros(1), np.zeros((1, md)), jac,
+                       {"status": np.zeros(1), "value": np.zeros(1)})
+        outs.append(np.array(e.ask(), dtype=np.float64))
+        e.tell(outs[1].copy(), np.zeros(batch), np.zeros((batch, md)),
+               {"status": np.ones(batch, dtype=np.int32), "value": np.zeros(batch)})
+        outs.append(np.array(e.ask_dqd(), dtype=np.float64))
+        outs.append(np.array(e.ask(), dtype=np.float64))
+    except Exception as ex:  # pylint: disable=broad-except
+        outs.append(type(ex).__name__)
+    return outs
+
+
+def same_outputs(a, b):
+    if len(a) != len(b):
+        return False
+    for x, y in zip(a, b):
+        if isinstance(x, str) or isinstance(y, str):
+            if not (isinstance(x, str) and isinstance(y, str) and x == y):
+                return False
+        elif x.shape != y.shape or not np.array_equal(x, y, equal_nan=True):
+            return False
+    return True
+
+
 class RefAdam:
     """The documented optimizer, restated: Adam (Kingma & Ba) on the *descent* gradient -g + l2_coeff * theta,
     i.e. gradient ascent on f(theta) - l2_coeff/2 * |theta|^2 (the L2 term pulls theta TOWARD the origin)."""
@@ -394,8 +467,11 @@ def run_gae(case, ctx):
     script = {"stop": False, "coeffs": [[0.0] * m] * batch, "perm": list(range(batch))}
     hold = {}
 
+    real_es = case.get("es", "spy") != "spy"     # a real evolution strategy (recording subclass) instead of the spy
+    EsCls = make_recorder(case["es"]) if real_es else SpyES
+
     def mk_es(**kw):
-        hold["es"] = SpyES(script=script, **kw)
+        hold["es"] = EsCls(script=script, **kw)
         return hold["es"]
 
     def mk_rk(seed=None):
@@ -430,7 +506,23 @@ def run_gae(case, ctx):
         zero_jac = False
         jst_gae = jac_last = None
         adam_fresh = True   # no step since the last reset
-        last_ask = None
+        last_ask = prev_ask = None
+
+        def untouched(twin, what_call, where):
+            """After a REFUSED call: the emitter must go on exactly like `twin`, the deep copy taken just before
+            the call (same solution point, same batches -- hence the same generator state --, same step)."""
+            got = probe_outputs(copy.deepcopy(em), have_grad, n, md, batch)
+            want = probe_outputs(twin, have_grad, n, md, batch)
+            ctx.count("gae:refused-call-vs-twin")
+            if same_outputs(got, want):
+                return None
+            k = next((i for i, (x, y) in enumerate(zip(got, want))
+                      if not same_outputs([x], [y])), min(len(got), len(want)))
+            names = ["ask_dqd()", "ask()", "ask_dqd() after telling that batch back", "the next ask()"]
+            return Failure("oracle", f"{where}: after the refused {what_call} the emitter no longer behaves like a copy "
+                           f"taken just before the call: {names[min(k, 3)]} returns "
+                           f"{got[k].tolist() if k < len(got) and not isinstance(got[k], str) else got[k:k + 1]}, the "
+                           f"copy returns {want[k].tolist() if k < len(want) and not isinstance(want[k], str) else want[k:k + 1]}")
 
         def theta_now():
             t = em.ask_dqd()
@@ -475,7 +567,12 @@ def run_gae(case, ctx):
                 continue
             if o == "tell_dqd":
                 jac = rows_f(op["jac"])
+                if op.get("poison") and jac.ndim == 2 and jac.size:
+                    # a non-finite entry: the call must be refused like a mis-shaped Jacobian
+                    kind_, j_, k_ = op["poison"]
+                    jac[j_ % jac.shape[0], k_ % jac.shape[1]] = {"nan": np.nan, "inf": np.inf, "-inf": -np.inf}[kind_]
                 th = theta_now()
+                twin = copy.deepcopy(em) if (jac.shape != (m, n) or not np.all(np.isfinite(jac))) else None
                 try:
                     arr = jac.reshape(1, jac.shape[0], -1) if jac.ndim == 2 else jac
                     handed = [th[None].copy(), np.zeros(1), np.zeros((1, md)), arr.copy(),
@@ -490,10 +587,25 @@ def run_gae(case, ctx):
                 except Exception as ex:  # pylint: disable=broad-except
                     return Failure("oracle", f"{where}: raised {type(ex).__name__}: {str(ex)[:80]}")
                 well = jac.shape == (m, n)
+                if well and not np.all(np.isfinite(jac)):
+                    # a non-finite gradient (no counterpart in the model's rationals): nothing may be left of the call
+                    if res == "ok":
+                        ctx.count("gae:non-finite-jacobian-accepted(case-ends)")
+                        return None
+                    f_ = untouched(twin, f"tell_dqd (Jacobian with a {op['poison'][0]} entry)", where)
+                    if f_ is not None:
+                        return f_
+                    ctx.count("gae:tell_dqd-refused(non-finite)")
+                    continue
                 if well and res != "ok":
                     return Failure("oracle", f"{where}: well-shaped Jacobian rejected")
                 if not well and res == "ok":
                     return Failure("oracle", f"{where}: Jacobian of shape {jac.shape} accepted for (1+{md}, {n})")
+                if not well:
+                    f_ = untouched(twin, f"tell_dqd (Jacobian of shape {jac.shape})", where)
+                    if f_ is not None:
+                        return f_
+                    ctx.count("gae:tell_dqd-refused(shape)")
                 norms = [fr(v) for v in np.linalg.norm(jac, axis=1)] if well else []
                 mres = drv.ask(f"gae telldqd norms={rowtok(norms)} tol={q(TOL)} " +
                                (";".join(rowtok(frow(r)) for r in jac) if len(jac) else "-"))
@@ -518,6 +630,7 @@ def run_gae(case, ctx):
             if o == "ask":
                 script["coeffs"] = [[float(Fraction(v)) for v in r] for r in op["coeffs"]]
                 th0 = theta_now()
+                twin = copy.deepcopy(em) if not have_grad else None
                 try:
                     out = em.ask()
                     res = "ok"
@@ -525,6 +638,9 @@ def run_gae(case, ctx):
                     res = "err runtime"
                 except Exception as ex:  # pylint: disable=broad-except
                     return Failure("oracle", f"{where}: raised {type(ex).__name__}: {str(ex)[:80]}")
+                if real_es and res == "ok":
+                    # the coefficient rows the real strategy handed to the emitter in this ask()
+                    script["coeffs"] = [[float(v) for v in r] for r in es.last]
                 # oracle: refusal before gradients, state unchanged
                 if not have_grad:
                     if res != "err runtime":
@@ -532,6 +648,9 @@ def run_gae(case, ctx):
                     mst = dict(t.split("=", 1) for t in drv.ask("gae state").split())
                     if not np.array_equal(theta_now(), th0) or em.itrs != int(mst["itrs"]):
                         return Failure("oracle", f"{where}: refused ask changed the emitter's state")
+                    f_ = untouched(twin, "ask() before any gradients", where)
+                    if f_ is not None:
+                        return f_
                     ctx.count("gae:ask-refused")
                 elif res != "ok":
                     return Failure("oracle", f"{where}: ask() refused although gradients were supplied")
@@ -565,19 +684,33 @@ def run_gae(case, ctx):
                                        f"model={[float(v) for v in mrows[i]]} (theta + sum c_j J_j)")
                     if w:
                         ctx.extra["max_err_over_tol"] = max(ctx.extra.get("max_err_over_tol", 0.0), float(w))
-                last_ask = out
-                ctx.count("gae:ask")
+                prev_ask, last_ask = last_ask, out
+                ctx.count("gae:ask" + (":real-es" if real_es else ""))
                 continue
             if o == "tell":
                 status = [int(v) for v in op["status"]]
                 perm = [int(v) for v in op["perm"]]
                 script["perm"] = perm
                 script["stop"] = bool(op["stop"])
-                if op.get("sols") == "last" and last_ask is not None:
+                how = op.get("sols")
+                if how == "last" and last_ask is not None:
                     sols = np.array(last_ask, dtype=np.float64)
+                elif how == "prev" and prev_ask is not None:
+                    # ask() was called twice; the caller evaluates and tells the FIRST batch
+                    sols = np.array(prev_ask, dtype=np.float64)
+                    ctx.count("gae:told=batch-of-the-ask-before-last")
+                elif isinstance(how, str) and how.startswith(("clip:", "round:")) and last_ask is not None:
+                    # the caller post-processed what ask() returned before evaluating it; what is told (and ranked) are
+                    # the solutions that were evaluated: projected into a box around the origin / rounded to a grid
+                    r_ = float(Fraction(how.split(":")[1]))
+                    sols = np.array(last_ask, dtype=np.float64)
+                    sols = np.clip(sols, -r_, r_) if how.startswith("clip:") else np.round(sols / r_) * r_
+                    if not np.array_equal(sols, np.asarray(last_ask, dtype=np.float64)):
+                        ctx.count("gae:told!=asked(" + how.split(":")[0] + ")")
                 else:
                     sols = rows_f(op["srows"])
                 th0 = theta_now()
+                twin = copy.deepcopy(em) if not have_grad else None
                 itrs0, rst0 = em.itrs, em.restarts
                 snap = copy.deepcopy(arch)
                 cur = [frow(r) for r in arch.data("solution")]
@@ -614,6 +747,9 @@ def run_gae(case, ctx):
                         return Failure("oracle", f"{where}: tell() before tell_dqd() did not raise RuntimeError")
                     if not np.array_equal(th1, th0) or em.itrs != itrs0 or em.restarts != rst0:
                         return Failure("oracle", f"{where}: refused tell changed the emitter's state")
+                    f_ = untouched(twin, "tell() before any gradients", where)
+                    if f_ is not None:
+                        return f_
                     ctx.count("gae:tell-refused")
                 else:
                     if res == "err runtime":
@@ -621,7 +757,11 @@ def run_gae(case, ctx):
                     rule = case["rule"]
                     fires = ((itrs0 + 1) % rule == 0) if isinstance(rule, int) else (
                         new == 0 if rule == "no_improvement" else False)
-                    should = bool(op["stop"]) or fires
+                    # (a real strategy's own stop criteria count as well: recorded by the subclass)
+                    real_stop = any(l[2] for l in es.log[nes:] if l[0] == "check_stop" and len(l) > 2)
+                    if real_stop:
+                        ctx.count("gae:real-strategy-check_stop-fired")
+                    should = bool(op["stop"]) or fires or real_stop
                     if res == "ok":
                         if em.itrs != itrs0 + 1:
                             return Failure("oracle", f"{where}: itrs {itrs0} -> {em.itrs}")
@@ -736,7 +876,8 @@ def run_gae(case, ctx):
                     ext = rowtok(frow(th1))
                 mres = drv.ask(
                     f"gae tell status={','.join(map(str, status)) or '-'} ranking={','.join(map(str, perm)) or '-'} "
-                    f"weights={rowtok(wts)} stop={1 if op['stop'] else 0} "
+                    f"weights={rowtok(wts)} "
+                    f"stop={1 if (op['stop'] or any(l[2] for l in es.log[nes:] if l[0] == 'check_stop' and len(l) > 2)) else 0} "
                     f"elite={'none' if elite is None else rowtok(frow(elite))} ext={ext} sols " +
                     " ".join(rowtok(frow(r)) for r in sols))
                 if res != "ok":
@@ -786,7 +927,7 @@ def run_gae(case, ctx):
                 if okind == "adam" and have_grad and res != "ok" and npar > 0:
                     adam_fresh = False
                 hist["scale"] = hist_next
-                ctx.count("gae:tell")
+                ctx.count("gae:tell" + (":real-es" if real_es else ""))
                 continue
             raise ValueError(f"unknown op {o}")
         return None
@@ -1230,6 +1371,99 @@ def gen_gae(rng, stratum):
     return case
 
 
+def gen_gae_real(rng, quick=False):
+    """GradientArborescenceEmitter around a REAL evolution strategy (the default cma_es most often; a recording
+    subclass hands the harness the coefficient rows), driven through protocol interleavings in which what is told is
+    not simply what the last ask() returned under the gradients supplied last:
+
+      canonical   ask_dqd, tell_dqd, ask, tell(the batch as returned)
+      post        ... ask, tell(the batch projected into a box / rounded to a grid by the caller before evaluation)
+      regrad      ask_dqd, tell_dqd(J1), ask, ask_dqd, tell_dqd(J2), tell   (gradients re-supplied between ask and tell)
+      twice       ... ask, ask, tell(first batch | second batch)
+      refused     ask_dqd, tell_dqd(J1), tell_dqd(non-finite or mis-shaped: refused), ask, tell
+      reuse       ask, tell   (no new gradients)
+      replaced    ask, tell(other solutions altogether)
+
+    The step clause is read on the solutions TOLD; after every refused call the emitter is compared with a copy taken
+    just before the call."""
+    md = rng.randint(1, 3)
+    m = md + 1
+    n = rng.randint(1, 4)
+    es = rng.choice(["cma_es", "cma_es", "cma_es", "cma_es", "sep_cma_es", "lm_ma_es", "openai_es", "spy"])
+    if quick and es in ("sep_cma_es", "lm_ma_es"):
+        # numba compiles every native strategy per process and dtype (2-6 s each): the quick tier runs the default
+        # strategy (and OpenAI-ES, which is plain NumPy) on float64 archives, the thorough tier all of them
+        es = "cma_es"
+    batch = rng.randint(1, 6)
+    if es == "lm_ma_es":
+        batch = rng.randint(1, m - 1)       # batch_size < dimension of the coefficient space (= is C18's finding D50)
+    elif es == "openai_es":
+        batch = rng.choice([2, 4, 6])       # mirror sampling (the strategy's default) needs an even batch
+    opt = rng.choice(["spy:1/2", "spy:1", "spy:1/4", "ascent:1/2", "ascent:1/4", "ascent:1", "ascent:1/10"])
+    rule = rng.choice(["basic", "basic", "no_improvement", 2, 3])
+    sel = rng.choice(["filter", "filter", "mu"])
+    norm = rng.random() < 0.5
+    case = {"emitter": "gae", "n": n, "mdim": md, "batch": batch, "exact": False, "norm": norm, "opt": opt,
+            "sel": sel, "rule": rule, "es": es, "eps": rng.choice(["1/1024", "1/100000000", "1/8"]),
+            "x0": [rng.choice(["1", "-1", "1/2", "3", "-5/4", "2"]) for _ in range(n)],
+            "seed": rng.randrange(1 << 30), "aseed": rng.randrange(1 << 30)}
+    if rng.random() < 0.2 and not (quick and es == "cma_es"):
+        case["sd"] = "f32"
+    jac_ = lambda: gen_jac(rng, m, n, rng.choice(["dyadic", "dyadic", "dyadic", "rank1", "zerorow"]))
+    ask_ = lambda: {"op": "ask", "coeffs": [[dy(rng, 8, 2) for _ in range(m)] for _ in range(batch)]}
+
+    def tell_(sols):
+        status = [rng.choice([0, 1, 2]) for _ in range(batch)]
+        if not any(status) and rng.random() < 0.8:
+            status[rng.randrange(batch)] = 1
+        perm = list(range(batch))
+        rng.shuffle(perm)
+        return {"op": "tell", "status": status, "perm": perm, "stop": rng.random() < 0.05, "sols": sols,
+                "srows": [[dy(rng) for _ in range(n)] for _ in range(batch)]}
+
+    def bad_tell_dqd():
+        jac = jac_()
+        if rng.random() < 0.6:
+            return {"op": "tell_dqd", "jac": jac,
+                    "poison": [rng.choice(["nan", "nan", "inf", "-inf"]), rng.randrange(m), rng.randrange(n)]}
+        return {"op": "tell_dqd", "jac": jac[:-1] if rng.random() < 0.5 else [r_ + ["1"] for r_ in jac]}
+
+    post_ = lambda: rng.choice(["clip:", "clip:", "round:"]) + rng.choice(["1/4", "1/2", "1", "2"])
+    ops = [gen_arch_add(rng, n, md)]
+    if rng.random() < 0.4:
+        # out of order before any gradients: refused
+        for _ in range(rng.randint(1, 2)):
+            ops.append(rng.choice([ask_(), tell_("srows")]))
+        if rng.random() < 0.5:
+            ops.append(bad_tell_dqd())
+    have = False
+    for _ in range(rng.randint(3, 6)):
+        pat = rng.choice(["canonical", "post", "post", "regrad", "regrad", "twice", "refused", "refused", "reuse",
+                          "replaced"])
+        if not have and pat in ("reuse", "replaced"):
+            pat = "canonical"
+        if pat in ("reuse", "replaced"):
+            ops += [ask_(), tell_("last" if pat == "reuse" else "srows")]
+            continue
+        ops += [{"op": "ask_dqd"}, {"op": "tell_dqd", "jac": jac_()}]
+        have = True
+        if pat == "refused":
+            ops.append(bad_tell_dqd())
+        ops.append(ask_())
+        if pat == "regrad":
+            ops += [{"op": "ask_dqd"}, {"op": "tell_dqd", "jac": jac_()}]
+        if pat == "twice":
+            ops.append(ask_())
+        ops.append(tell_({"canonical": "last", "post": post_(), "regrad": "last",
+                          "twice": rng.choice(["prev", "prev", "last"]),
+                          "refused": rng.choice(["last", post_()])}[pat]))
+        if rng.random() < 0.15:
+            ops.append(gen_arch_add(rng, n, md))
+    ops.append({"op": "ask_dqd"})
+    case["ops"] = [{"op": "cfg", "tag": f"gae-real/{es}/{n}/{md}/{batch}/{opt}/{rule}/{sel}/{norm}/{case['seed']}"}] + ops
+    return case
+
+
 def gen_gop(rng):
     n, md, batch = rng.randint(1, 4), rng.randint(1, 3), rng.randint(1, 4)
     m = md + 1
@@ -1444,6 +1678,16 @@ def nontrivial(case):
     return False
 
 
+class _NoCtx:
+    """throw-away counters for the warm-up run"""
+
+    def __init__(self):
+        self.extra = {}
+
+    def count(self, *_a, **_k):
+        pass
+
+
 def run(ctx):
     rc = lambda case: run_case(case, ctx)
     quick = ctx.quick
@@ -1451,6 +1695,22 @@ def run(ctx):
                                  ("gae-zero-parents", 80, 3000, 4, 50), ("gae-refusal", 60, 2000, 3, 35)]:
         ctx.explore(name, (lambda rng, name=name: gen_gae(rng, name)), rc, ctx.n(nq, nt), nontrivial=nontrivial,
                     time_budget=tq if quick else tt)
+    # (one throw-away case first: numba's per-process compilation of the native strategy is not part of the budget)
+    import random as _random
+    from core import bounded
+    seen_ = set()
+    for i_ in range(300):
+        c_ = gen_gae_real(_random.Random(i_), quick)
+        key_ = (c_["es"], c_.get("sd", "f64"))
+        if key_ in seen_ or c_["es"] in ("spy", "openai_es"):
+            continue
+        seen_.add(key_)
+        try:
+            bounded(lambda c_=c_: run_case(c_, _NoCtx()), 60, ctx.tier)
+        except Exception:  # pylint: disable=broad-except
+            pass    # whatever is wrong here is reported by the stratum itself
+    ctx.explore("gae-real-es", (lambda rng: gen_gae_real(rng, quick)), rc, ctx.n(120, 5000), nontrivial=nontrivial,
+                time_budget=8 if quick else 90)
     ctx.explore("gop", make_gop_gen(), rc, ctx.n(220, 8000), nontrivial=nontrivial, time_budget=9 if quick else 110)
     ctx.explore("gae-long", make_long_gen(), rc, ctx.n(1, 4), nontrivial=nontrivial, shrink_key="no-shrinking",
                 time_budget=None)
